@@ -200,6 +200,11 @@ def evaluate(pool, lane, job, use_ref_for_session=False, nclosure=2):
                                  'message': 'interpreter died on signal %s inside %s (step %d of %s); the pristine run completed it' % (res['signal'], op, k, cid)})
         memory_unsafe = True
     first_bad = set()
+    for f in (done.get('cx') or {}).values():
+        # the interference client is not compared with a reference, but its ops must preserve their arguments too
+        if f.get('mutated'):
+            findings.append({'class': 'mutates-argument', 'cid': 'cx', 'k': f['k'], 'op': f['op'], 'args': f['mutated'], 'layout': [],
+                             'message': '%s changed its argument(s) %s in place' % (f['op'], f['mutated'])})
     for cid in sorted(job['clients']):
         if cid == 'cx':
             continue
